@@ -19,7 +19,7 @@ RULE = (
     "time) through fast_json.dumps (default, compact separators, indent=None, after a pretty-printing call) and the model_dump_json path (request params / response result), and every distinct encoding is decoded "
     "by every worker through fast_json.loads; oracle: decode(encode(v)) equals v type-strictly (float bit pattern, int exactness) for every (encoder, decoder) pair and no "
     "encoding contains a raw LF/CR; values: bounded-exhaustive grammar (depth<=3, reduced alphabets at depth) over a leaf alphabet with 64-bit boundaries, -0.0, 1e308, "
-    "denormals, every C0 control, U+0085/2028/2029, BMP boundary and astral characters, non-ASCII keys, plus Hypothesis recursive values and seeded deep values (100..300 levels, around orjson's 254-level limit); non-trivial = value contains an int "
+    "denormals, every C0 control, U+0085/2028/2029, BMP boundary and astral characters, non-ASCII keys, plus Hypothesis recursive values and seeded deep values (100..300 levels, around orjson's 254-level limit) and runs of same-shaped sibling containers encoded one after the other in one process; non-trivial = value contains an int "
     "beyond 2^53, a non-integral float, a control/line-separator/non-ASCII character or null; distinct = distinct value"
 )
 ASSUMPTIONS = [
@@ -281,14 +281,42 @@ def job_deep(col: Collector, seed: int, tier: str) -> None:
     col.exhaustive_parts.append("deep values: depth {100,252..256,300} x {list, dict, alternating} x 4 leaves through every encoder path")
 
 
-JOBS = {"grammar": job_grammar, "hyp": job_hyp, "deep": job_deep}
+def job_siblings(col: Collector, seed: int, tier: str) -> None:
+    """runs of values that are containers of the same type and length but different content, encoded one after the
+    other in the same backend process (each one garbage before the next is built): an encoder that remembers anything
+    about an earlier value - by identity, by shape - shows here."""
+    batches: List[List[Any]] = []
+    for L in (1, 7, 8, 9, 16, 40):
+        batches.append([[k * 100 + j for j in range(L)] for k in range(6)])
+        batches.append([{f"k{j}": k * 100 + j for j in range(L)} for k in range(6)])
+        batches.append([[{"row": [k, j, None]} for j in range(L)] for k in range(4)])
+        batches.append([{"a": [k] * L, "b": {"n": [str(k)] * L}} for k in range(4)])
+    for values in batches:
+        # twice: the second pass meets whatever the first one left behind
+        for _pass in range(2):
+            o = check({"values": values})
+            col.evaluations += len(values) - 1
+            from ..runner import digest
+
+            for v in values:
+                col.nontrivial.add(digest(v))
+            if o.failures:
+                col.record({"values": values}, o)  # the run is the case: single values do not reproduce it
+                return
+            o.nontrivial = False
+            o.classes = ("sibling-containers",)
+            col.record({"values": values}, o)
+    col.exhaustive_parts.append("sibling containers: lengths {1,7,8,9,16,40} x {int lists, int dicts, lists of rows, nested} x 4-6 siblings, each run twice in the same worker processes")
+
+
+JOBS = {"grammar": job_grammar, "hyp": job_hyp, "deep": job_deep, "siblings": job_siblings}
 SERIAL = False
 
 
 def jobs(tier: str):
     if tier == "quick":
-        return [("grammar", {"shard": s, "nshards": 3, "stride": 8}) for s in range(3)] + [("hyp", {"shard": 0, "n": 150}), ("deep", {})]
-    return [("grammar", {"shard": s, "nshards": 3, "stride": 1}) for s in range(3)] + [("hyp", {"shard": 0, "n": 6000}), ("deep", {})]
+        return [("grammar", {"shard": s, "nshards": 3, "stride": 8}) for s in range(3)] + [("hyp", {"shard": 0, "n": 150}), ("deep", {}), ("siblings", {})]
+    return [("grammar", {"shard": s, "nshards": 3, "stride": 1}) for s in range(3)] + [("hyp", {"shard": 0, "n": 6000}), ("deep", {}), ("siblings", {})]
 
 
 def shrink(signature: str, seed: int):
